@@ -10,7 +10,7 @@ The kernels are proved for a *skolem* row k (arbitrary, hence for all rows).
 
 import z3
 
-from vf.pyvc import (as_val, And, Arr, Contract, If, Implies, Loop, Max, Min, NS, Not, Or, V, I, R, Z, register, is_z3)
+from vf.pyvc import (as_val, And, Arr, Contract, If, Implies, Loop, Max, Min, NS, Not, Or, V, I, R, Z, register, is_z3, Ref)
 from vf import lemmas
 
 CORE = "quimb/core.py"
@@ -688,3 +688,447 @@ def lem_digits():
 def lem_digits_range():
     p, a, b, m = z3.Ints("p a b m")
     return [p >= 1, 0 <= b, b < p, 0 <= p * a + b, p * a + b < m * p], And(0 <= a, a < m)
+
+
+# ---------------------------------------------------------------------------------------
+# wrappers: allocation of the output, the extent handed to maybe_multithread, pass-through of the thread options
+# ---------------------------------------------------------------------------------------
+
+
+def nd(cx, name, shape, fresh=False, base=None):
+    return cx.new_obj("ndarray", shape=tuple(shape), fresh=fresh, name=name, base=base)
+
+
+def size_of(shape):
+    r = 1
+    for s in shape:
+        r = r * s
+    return r
+
+
+# kernel name -> (positional parameter names of the arrays/scalars, name of the output parameter,
+#                 shape relations required by the kernel as a function of the bound arguments)
+def _sh(cx, ref):
+    return cx.fields(ref)["shape"]
+
+
+def _vec_same(*names):
+    def f(cx, b):
+        shp = [_sh(cx, b[n]) for n in names]
+        return {"all-1d": all(len(s) == 1 for s in shp),
+                "same-length": And(*[shp[0][0] == s[0] for s in shp[1:]]) if all(len(s) == 1 for s in shp) else False}
+    return f
+
+
+def _same_shape(*names):
+    def f(cx, b):
+        shp = [_sh(cx, b[n]) for n in names]
+        ok = all(len(s) == len(shp[0]) for s in shp)
+        return {"same-rank": ok, "same-shape": And(*[a == c for s in shp[1:] for a, c in zip(shp[0], s)]) if ok else False}
+    return f
+
+
+KERNEL_SIGS = {
+    "_complex_array_numba": (("x", "y", "out"), "out", _vec_same("x", "y", "out")),
+    "_phase_to_complex_numba": (("x", "out"), "out", _vec_same("x", "out")),
+    "_subtract_update_1d_numba": (("X", "c", "Y"), "X", _vec_same("X", "Y")),
+    "_subtract_update_2d_numba": (("X", "c", "Y"), "X", _same_shape("X", "Y")),
+    "_divide_update_1d_numba": (("X", "c", "out"), "out", _vec_same("X", "out")),
+    "_divide_update_2d_numba": (("X", "c", "out"), "out", _same_shape("X", "out")),
+    "_dot_csr_matvec_numba": (("data", "indptr", "indices", "vec", "out"), "out", lambda cx, b: {
+        "indptr-has-rows+1": _sh(cx, b["indptr"])[0] == _sh(cx, b["out"])[0] + 1,
+        "data-indices-same": _sh(cx, b["data"])[0] == _sh(cx, b["indices"])[0],
+        "vec-has-ncols": _sh(cx, b["vec"])[0] == cx.ghost.get("csr_ncols", _sh(cx, b["vec"])[0])}),
+    "_l_diag_dot_dense_par": (("l", "A", "out"), "out", lambda cx, b: {
+        "diag-has-rows": _sh(cx, b["l"])[0] == _sh(cx, b["A"])[0], **_same_shape("A", "out")(cx, b)}),
+    "_r_diag_dot_dense_par": (("A", "l", "out"), "out", lambda cx, b: {
+        "diag-has-cols": _sh(cx, b["l"])[0] == _sh(cx, b["A"])[1], **_same_shape("A", "out")(cx, b)}),
+    "_outer_par": (("x", "y", "out", "m", "n"), "out", lambda cx, b: {
+        "x-has-m": _sh(cx, b["x"])[0] == b["m"], "y-has-n": _sh(cx, b["y"])[0] == b["n"],
+        "out-is-mxn": And(_sh(cx, b["out"])[0] == b["m"], _sh(cx, b["out"])[1] == b["n"])}),
+    "_kron_dense_numba": (("x", "y", "out", "m", "n", "p", "q"), "out", lambda cx, b: {
+        "x-is-mxn": And(_sh(cx, b["x"])[0] == b["m"], _sh(cx, b["x"])[1] == b["n"]),
+        "y-is-pxq": And(_sh(cx, b["y"])[0] == b["p"], _sh(cx, b["y"])[1] == b["q"]),
+        "out-is-mp x nq": And(_sh(cx, b["out"])[0] == b["m"] * b["p"], _sh(cx, b["out"])[1] == b["n"] * b["q"])}),
+}
+
+
+class Wrapper(Contract):
+    property_ids = ("C16",)
+    safety = False
+    floor = 5
+    update_in_place = False  # *_update_ wrappers write into an argument instead of a fresh output
+    drops = "decorators (@ensure_qarray: wraps the returned array, no effect on its content), docstring"
+
+    def attr(self, cx, base, attr, node):
+        if isinstance(base, Ref) and base.kind == "ndarray":
+            shp = cx.fields(base)["shape"]
+            if attr == "size":
+                return size_of(shp)
+            if attr == "ndim":
+                return len(shp)
+            if attr == "dtype":
+                return cx.ghost.get("dtype", "float64")
+            if attr == "shape":
+                return shp
+        if isinstance(base, Ref) and base.kind == "csr":
+            f = cx.fields(base)
+            if attr in f:
+                return f[attr]
+        if base is None and attr in KERNEL_SIGS:
+            return ("kernel", attr)
+        return NotImplemented
+
+    def call(self, cx, name, args, kwargs, node):
+        if name in ("np.empty",):
+            shp = args[0]
+            shp = tuple(shp) if isinstance(shp, (tuple, list)) else (shp,)
+            return nd(cx, "out", shp, fresh=True)
+        if name == "np.empty_like":
+            return nd(cx, "out", cx.fields(args[0])["shape"], fresh=True)
+        if name == ".ravel" and isinstance(args[0], Ref):
+            f = cx.fields(args[0])
+            return nd(cx, f["name"] + ".ravel()", (size_of(f["shape"]),), fresh=f["fresh"], base=args[0])
+        if name == "common_type":
+            return cx.Opaque("dtype")
+        if name == "__isinstance__" and args[1] == "qarray":
+            return False
+        if name == "__setattr__" and isinstance(args[0], Ref) and args[1] == "shape":
+            arr, _, shp = args
+            f = cx.fields(arr)
+            shp = tuple(shp) if isinstance(shp, (tuple, list)) else (shp,)
+            # reshaping never changes the number of elements
+            cx.oblige(f"reshape@{node.lineno}:size-preserved", "safety", size_of(shp) == size_of(f["shape"]), node.lineno)
+            f["shape"] = shp
+            return None
+        if name == "maybe_multithread":
+            return self.on_multithread(cx, args, kwargs, node)
+        return NotImplemented
+
+    def on_multithread(self, cx, args, kwargs, node):
+        """proved contract of maybe_multithread at this call site + the callee kernel's requirements"""
+        fn = args[0]
+        if not (isinstance(fn, tuple) and fn[0] == "kernel"):
+            cx.oblige(f"call-arg@{node.lineno}:kernel-is-a-threaded-kernel", "call-arg", False, node.lineno)
+            return None
+        kname = fn[1]
+        params, outname, shapes = KERNEL_SIGS[kname]
+        pos = args[1:]
+        if len(pos) != len(params):
+            cx.oblige(f"call-arg@{node.lineno}:kernel-arity", "call-arg", False, node.lineno)
+            return None
+        b = dict(zip(params, pos))
+        for lab, c in shapes(cx, b).items():
+            cx.oblige(f"call-pre@{node.lineno}:{kname}:{lab}", "call-pre", c, node.lineno)
+        out = b[outname]
+        rows = _sh(cx, out)[0]
+        # NOTE: size_total only decides *whether* to thread (size_total <= target_block_size -> serial call); the
+        # kernels partition their own extent, so the result does not depend on it.  It is therefore not an
+        # obligation of C16 (r_diag_dot_dense passes the column count: a heuristic mismatch, not a wrong result).
+        cx.oblige(f"call-arg@{node.lineno}:size_total-given", "call-arg", "size_total" in kwargs, node.lineno)
+        o = cx.old
+        cx.oblige(f"call-arg@{node.lineno}:thread-options-passed-through", "call-arg",
+                  And(self.same(kwargs.get("target_block_size"), o.target_block_size),
+                      self.same(kwargs.get("num_threads"), o.num_threads)), node.lineno)
+        extra = set(kwargs) - {"size_total", "target_block_size", "num_threads"}
+        cx.oblige(f"call-arg@{node.lineno}:no-stray-keyword", "call-arg", not extra, node.lineno)
+        if not self.update_in_place:
+            # the kernel must not read the array it writes: the output is freshly allocated here
+            f = cx.fields(out)
+            root = f["base"] if f["base"] is not None else out
+            cx.oblige(f"call-pre@{node.lineno}:{kname}:output-freshly-allocated", "call-pre",
+                      bool(cx.fields(root)["fresh"]) and all(
+                          (x is not root and (not isinstance(x, Ref) or cx.fields(x).get("base") is not root))
+                          for k, x in b.items() if k != outname), node.lineno)
+        cx.ghost["filled"] = out
+        cx.ghost["kernel"] = kname
+        return None
+
+    @staticmethod
+    def same(a, b):
+        if a is None or b is None:
+            return a is None and b is None
+        if is_z3(a) or is_z3(b):
+            return a == b
+        return a == b
+
+    def tparams(self, cx):
+        nt = None if self._case.nt == "None" else cx.Int("num_threads")
+        return dict(num_threads=nt, target_block_size=cx.Int("tbs"))
+
+    def cases(self):
+        return [NS(name=f"num_threads={nt}", nt=nt) for nt in ("None", "int")]
+
+    def ensures(self, a, r, cx, case):
+        out = cx.ghost.get("filled")
+        d = {"kernel-was-dispatched": out is not None}
+        if out is None:
+            return d
+        if not self.update_in_place:
+            f = cx.fields(out)
+            root = f["base"] if f["base"] is not None else out
+            d["returns-the-filled-array"] = isinstance(r, Ref) and (r is root or r == root)
+            d.update(self.result_shape(cx, a, r) if isinstance(r, Ref) else {})
+        return d
+
+    def result_shape(self, cx, a, r):
+        return {}
+
+
+def _winputs(fn):
+    def inputs(self, cx, case):
+        self._case = case
+        return fn(self, cx, case)
+    return inputs
+
+
+@register
+class WComplexArray(Wrapper):
+    target = f"{CORE}::complex_array"
+
+    def cases(self):
+        return [NS(name=f"num_threads={nt},dtype={dt}", nt=nt, dt=dt) for nt in ("None", "int") for dt in ("float32", "float64")]
+
+    @_winputs
+    def inputs(self, cx, case):
+        n = cx.Int("n")
+        cx.assume(n >= 0)
+        cx.ghost["dtype"] = case.dt
+        return dict(x=nd(cx, "x", (n,)), y=nd(cx, "y", (n,)), **self.tparams(cx))
+
+    def result_shape(self, cx, a, r):
+        return {"shape": _sh(cx, r)[0] == _sh(cx, a.x)[0]}
+
+
+@register
+class WPhaseToComplex(Wrapper):
+    target = f"{CORE}::phase_to_complex"
+
+    def cases(self):
+        return [NS(name=f"num_threads={nt},ndim={k}", nt=nt, k=k) for nt in ("None", "int") for k in (1, 2)]
+
+    @_winputs
+    def inputs(self, cx, case):
+        shp = tuple(cx.Int(f"n{i}") for i in range(case.k))
+        for s in shp:
+            cx.assume(s >= 0)
+        return dict(x=nd(cx, "x", shp), **self.tparams(cx))
+
+    def result_shape(self, cx, a, r):
+        return {"shape": And(*[p == q for p, q in zip(_sh(cx, r), _sh(cx, a.x))]) if len(_sh(cx, r)) == len(_sh(cx, a.x)) else False}
+
+
+class WUpdate(Wrapper):
+    update_in_place = True
+
+    def cases(self):
+        return [NS(name=f"num_threads={nt},ndim={k}", nt=nt, k=k) for nt in ("None", "int") for k in (1, 2)]
+
+    def ensures(self, a, r, cx, case):
+        d = super().ensures(a, r, cx, case)
+        d["kernel-matches-rank"] = cx.ghost.get("kernel", "").endswith(f"_{case.k}d_numba")
+        return d
+
+
+@register
+class WSubtractUpdate(WUpdate):
+    target = f"{CORE}::subtract_update_"
+
+    @_winputs
+    def inputs(self, cx, case):
+        shp = tuple(cx.Int(f"n{i}") for i in range(case.k))
+        return dict(X=nd(cx, "X", shp), c=cx.Val("c"), Y=nd(cx, "Y", shp), **self.tparams(cx))
+
+
+@register
+class WDivideUpdate(WUpdate):
+    target = f"{CORE}::divide_update_"
+
+    @_winputs
+    def inputs(self, cx, case):
+        shp = tuple(cx.Int(f"n{i}") for i in range(case.k))
+        return dict(X=nd(cx, "X", shp), c=cx.Val("c"), out=nd(cx, "out", shp), **self.tparams(cx))
+
+
+@register
+class WParDotCsrMatvec(Wrapper):
+    target = f"{CORE}::par_dot_csr_matvec"
+
+    def cases(self):
+        return [NS(name=f"num_threads={nt},x={k}", nt=nt, k=k) for nt in ("None", "int") for k in ("1d", "column")]
+
+    @_winputs
+    def inputs(self, cx, case):
+        n, m, nnz = cx.Int("n"), cx.Int("m"), cx.Int("nnz")
+        cx.assume(And(n >= 0, m >= 0, nnz >= 0))
+        A = cx.new_obj("csr", shape=(n, m), data=nd(cx, "A.data", (nnz,)), indptr=nd(cx, "A.indptr", (n + 1,)),
+                       indices=nd(cx, "A.indices", (nnz,)))
+        cx.ghost["csr_ncols"] = m
+        x = nd(cx, "x", (m,) if case.k == "1d" else (m, 1))
+        return dict(A=A, x=x, num_threads=None if case.nt == "None" else cx.Int("num_threads"),
+                    target_block_size=cx.Int("tbs"))
+
+    def result_shape(self, cx, a, r):
+        n = cx.fields(a.A)["shape"][0]
+        shp = _sh(cx, r)
+        want = (n,) if len(_sh(cx, a.x)) == 1 else (n, 1)
+        return {"shape-is-rows-of-A": And(*[p == q for p, q in zip(shp, want)]) if len(shp) == len(want) else False}
+
+
+@register
+class WLDiagDotDense(Wrapper):
+    target = f"{CORE}::l_diag_dot_dense"
+
+    @_winputs
+    def inputs(self, cx, case):
+        n, m = cx.Int("n"), cx.Int("m")
+        return dict(diag=nd(cx, "diag", (n,)), mat=nd(cx, "mat", (n, m)), **self.tparams(cx))
+
+    def result_shape(self, cx, a, r):
+        return {"shape": And(*[p == q for p, q in zip(_sh(cx, r), _sh(cx, a.mat))])}
+
+
+@register
+class WRDiagDotDense(Wrapper):
+    target = f"{CORE}::r_diag_dot_dense"
+
+    @_winputs
+    def inputs(self, cx, case):
+        n, m = cx.Int("n"), cx.Int("m")
+        return dict(mat=nd(cx, "mat", (n, m)), diag=nd(cx, "diag", (m,)), **self.tparams(cx))
+
+    def result_shape(self, cx, a, r):
+        return {"shape": And(*[p == q for p, q in zip(_sh(cx, r), _sh(cx, a.mat))])}
+
+
+@register
+class WOuter(Wrapper):
+    target = f"{CORE}::outer"
+
+    @_winputs
+    def inputs(self, cx, case):
+        m, n = cx.Int("m"), cx.Int("n")
+        return dict(a=nd(cx, "a", (m,)), b=nd(cx, "b", (n,)), **self.tparams(cx))
+
+    def result_shape(self, cx, a, r):
+        return {"shape": And(_sh(cx, r)[0] == _sh(cx, a.a)[0], _sh(cx, r)[1] == _sh(cx, a.b)[0])}
+
+
+@register
+class WKronDense(Wrapper):
+    target = f"{CORE}::kron_dense"
+
+    @_winputs
+    def inputs(self, cx, case):
+        m, n, p, q = cx.Int("m"), cx.Int("n"), cx.Int("p"), cx.Int("q")
+        return dict(a=nd(cx, "a", (m, n)), b=nd(cx, "b", (p, q)), **self.tparams(cx))
+
+    def result_shape(self, cx, a, r):
+        (m, n), (p, q) = _sh(cx, a.a), _sh(cx, a.b)
+        return {"shape": And(_sh(cx, r)[0] == m * p, _sh(cx, r)[1] == n * q)}
+
+
+@register
+class MaybeMultithread(Contract):
+    """either ONE direct call fn(*args, **kwargs) (the kernel's serial defaults: rank 0 of 1), or exactly one
+    submission per rank r in range(num_threads) with the same (num_threads, target_block_size), all waited for"""
+
+    target = f"{CORE}::maybe_multithread"
+    property_ids = ("C16",)
+    floor = 4
+    safety = False
+
+    def cases(self):
+        return [NS(name=f"num_threads={nt}", nt=nt) for nt in ("None", "int")]
+
+    def inputs(self, cx, case):
+        nt = None if case.nt == "None" else cx.Int("num_threads")
+        if nt is not None:
+            cx.assume(nt >= 1)
+        cx.ghost["events"] = []
+        return dict(fn=("kernel", "fn"), args=(Opaque_("a0", cx), Opaque_("a1", cx)), size_total=cx.Int("size_total"),
+                    target_block_size=cx.Int("tbs"), num_threads=nt, kwargs={"extra": Opaque_("kw", cx)})
+
+    def attr(self, cx, base, attr, node):
+        if base is None and attr == "_NUM_THREAD_WORKERS":
+            w = cx.Int("default_workers")
+            cx.assume(w >= 1)
+            cx.ghost["default_workers"] = w
+            return w
+        if base is None and attr == "cf":
+            return NS(_cf=True)
+        return NotImplemented
+
+    def call(self, cx, name, args, kwargs, node):
+        ev = cx.ghost["events"]
+        if name == "fn":
+            ev.append(("direct", tuple(args), dict(kwargs)))
+            return None
+        if name == "get_thread_pool":
+            cx.ghost["pool_size"] = args[0]
+            return NS(_pool=True)
+        if name == "pool.submit":
+            ev.append(("submit", tuple(args), dict(kwargs)))
+            return ("future", len(ev) - 1)
+        if name == "__genexp__":
+            n = args[0]
+            g = n.generators[0]
+            it = cx.ev(g.iter)
+            if not (isinstance(it, tuple) and it and it[0] == "range" and len(it) == 2) or g.ifs:
+                from vf.pyvc import Unsupported
+                raise Unsupported("generator over something else than range(n)")
+            r = cx.Int("rank!any")
+            cx.assume(And(0 <= r, r < it[1]))
+            saved = dict(cx.env)
+            cx.assign(g.target, r)
+            elt = cx.ev(n.elt)
+            cx.env = saved
+            return ("forall-ranks", r, it[1], elt)
+        if name == "cf.wait":
+            ev.append(("wait", args[0]))
+            return None
+        return NotImplemented
+
+    def ensures(self, a, r, cx, case):
+        ev = cx.ghost["events"]
+        kinds = [e[0] for e in ev]
+        T = a.num_threads if a.num_threads is not None else cx.ghost.get("default_workers")
+        d = {}
+        if kinds == ["direct"]:
+            _, args, kw = ev[0]
+            d["serial-only-when-small"] = a.size_total <= a.target_block_size
+            d["direct-call-with-the-kernel-defaults"] = (args == tuple(a.args) and set(kw) == set(a.kwargs)
+                                                         and all(kw[k] is a.kwargs[k] for k in kw))
+        elif kinds == ["submit", "wait"]:
+            _, sargs, skw = ev[0]
+            w = ev[1][1]
+            ok = isinstance(w, tuple) and w[0] == "forall-ranks" and w[3] == ("future", 0)
+            d["all-submissions-waited-for"] = ok
+            d["threaded-only-when-large"] = a.size_total > a.target_block_size
+            if ok:
+                _, rvar, hi, _ = w
+                d["one-submission-per-rank-in-range(num_threads)"] = And(hi == T, z3.is_int(rvar)) if T is not None else False
+                d["rank-is-the-loop-variable"] = skw.get("thread_rank") is rvar or (
+                    is_z3(skw.get("thread_rank")) and skw.get("thread_rank").eq(rvar))
+                d["same-num_threads-for-every-rank"] = self_same(skw.get("num_threads"), T)
+                d["same-target_block_size"] = self_same(skw.get("target_block_size"), a.target_block_size)
+                d["kernel-and-arguments-passed-on"] = (len(sargs) == 1 + len(a.args) and sargs[0] is a.fn
+                                                       and all(x is y for x, y in zip(sargs[1:], a.args))
+                                                       and all(skw.get(k) is v for k, v in a.kwargs.items()))
+                d["pool-has-a-worker-per-rank"] = self_same(cx.ghost.get("pool_size"), T)
+        else:
+            d["exactly-one-dispatch"] = False
+        return d
+
+
+def self_same(a, b):
+    if a is None or b is None:
+        return a is None and b is None
+    if is_z3(a) or is_z3(b):
+        return a == b
+    return a == b
+
+
+def Opaque_(nm, cx):
+    from vf.pyvc import Opaque
+    return Opaque(cx.Val(nm))
